@@ -365,6 +365,8 @@ def run(ctx):
   from . import C07, C04, C12
   C07.ds_layout(ctx)
   C07.other_layouts(ctx)
+  C07.sketchy_buffer_widths(ctx)
+  C07.sketchy_update_shapes(ctx)    # leaf shapes of the Sketchy state are those a fresh init declares
   C07.sharded_triple(ctx)      # static fields (sizes, index_start) and declared layout of the sharded restore template
   C07.sharded_record_conversion(ctx)
   C07.sharded_update_layout(ctx)   # the sharded update hands back the records (and array sizes) the restore template has
